@@ -772,6 +772,34 @@ func c20AfterLoad(c *ev.Case, variant int) {
 	if !check("after", newCode) {
 		return
 	}
+	// dictionaries that are refused (Load returns an error) although they repeat definitions the
+	// parser already has: a file written for another stack that gives a known AVP a data type
+	// this library does not have, a file that fails further down, a file that repeats a command.
+	// Nothing that was found before is lost.
+	appTag := `<application id="8388001" type="auth" name="Gen-App">`
+	if variant%2 == 1 {
+		appTag = `<application id="0" name="Base">`
+	}
+	refused := []string{
+		`<?xml version="1.0" encoding="UTF-8"?><diameter>` + appTag + fmt.Sprintf(`<avp name="G-Ident" code="%d" must="M"><data type="AppId"/></avp></application></diameter>`, newCode),
+		`<?xml version="1.0" encoding="UTF-8"?><diameter><application id="0" name="Base"><avp name="G-Group" code="9018" must="M"><data type="Grouped"><rule avp="G-Octets" required="false"/></data></avp><avp name="X-Half" code="9777"><data type="Float16"/></avp></application></diameter>`,
+		`<?xml version="1.0" encoding="UTF-8"?><diameter>` + appTag + fmt.Sprintf(`<avp name="G-Ident" code="%d" must="M"><data type="OctetString"/></avp></application><application id="0" name="Base"><command code="257" short="CE" name="Capabilities-Exchange"><request><rule avp="G-Octets" required="false"/></request><answer><rule avp="G-Octets" required="false"/></answer></command></application></diameter>`, newCode),
+	}
+	for i, x := range refused {
+		var lerr error
+		if p, bad := guard(func() { lerr = cx.Parser.Load(strings.NewReader(x)) }); bad {
+			c.Fail(sig("panic"), nil, nil, "Load of a dictionary that is to be refused panicked: %s", p)
+			return
+		}
+		if lerr == nil {
+			c.Event("refused_dictionary_accepted", 1)
+			continue
+		}
+		if !check(fmt.Sprintf("after refused dictionary %d (%v) and", i, lerr), newCode) {
+			return
+		}
+		c.Event("queries_after_refused_load", 3)
+	}
 	c.Event("queries", 6)
 	c.Event("path_queries", 2)
 }
